@@ -331,68 +331,78 @@ Fixpoint scan_entries (m : gmap N entry) (lastLogIdx : N) (es : list entry) : sc
 
 Definition last_of (es : list entry) : entry := last es (mkE 0 0 0 0).
 
+(* "Verify the last log entry": Some true = matches, Some false = term mismatch, None = GetLog failed *)
+Definition prev_check (s2 : nstate) (a : areq) : option bool :=
+  if 0 <? aq_prevIdx a then
+    let '(lastIdx, lastTerm) := last_entry s2 in
+    if aq_prevIdx a =? lastIdx then Some (aq_prevTerm a =? lastTerm)
+    else match d_log s2 !! aq_prevIdx a with
+         | None => None
+         | Some pe => Some (aq_prevTerm a =? e_term pe)
+         end
+  else Some true.
+
+(* result of the "Process any new entries" block: continue (inl (Some _)), or answer now (inr _) *)
+Definition ae_cont : Type := option (nstate * list ev * list bool) + aresp * nstate * list ev * list bool.
+
+(* stage the commit index, StoreLogs, process configuration entries, setLastLog *)
+Definition store_new (P : params) (fail_resp : aresp) (lc : N)
+           (s3 : nstate) (tr3 : list ev) (fs3 : list bool) (news : list entry) : ae_cont :=
+  let lastNew := e_idx (last_of news) in
+  let '(s4, trs) := do_stage P s3 (N.min lc lastNew) in
+  let '(s5, ok, fs5) := do_store P s4 fs3 news in
+  if negb ok then inr (fail_resp, s5, tr3 ++ trs ++ [EStore news false], fs5)
+  else let s6 := fold_left (process_config_entry P) news s5 in
+       let s7 := set_lastlog s6 (e_idx (last_of news)) (e_term (last_of news)) in
+       inl (Some (s7, tr3 ++ trs ++ [EStore news true], fs5)).
+
+Definition ae_entries (P : params) (fail_resp : aresp) (s2 : nstate) (tr1 : list ev) (fs1 : list bool) (a : areq)
+  : ae_cont :=
+  match aq_entries a with
+  | [] => inl (Some (s2, tr1, fs1))
+  | _ =>
+    let lastLogIdx := v_lastLogIdx s2 in
+    match scan_entries (d_log s2) lastLogIdx (aq_entries a) with
+    | ScanNone => inl (Some (s2, tr1, fs1))
+    | ScanMissing => inr (fail_resp, s2, tr1, fs1)
+    | ScanNew news => store_new P fail_resp (aq_commit a) s2 tr1 fs1 news
+    | ScanConflict ci news =>
+      let '(s3, ok, fs3) := do_delete s2 fs1 ci lastLogIdx in
+      if negb ok then inr (fail_resp, s3, tr1 ++ [EDelete ci lastLogIdx false], fs3)
+      else let s3' := if ci <=? v_latestIdx s3
+                      then set_latest s3 (v_committed s3) (v_committedIdx s3) else s3 in
+           store_new P fail_resp (aq_commit a) s3' (tr1 ++ [EDelete ci lastLogIdx true]) fs3 news
+    end
+  end.
+
+(* "Update the commit index" and the final answer *)
+Definition ae_commit (ok_resp : aresp) (s8 : nstate) (tr8 : list ev) (fs8 : list bool) (a : areq) : outcome aresp :=
+  if (0 <? aq_commit a) && (v_commit s8 <? aq_commit a) then
+    let idx := N.min (aq_commit a) (last_index s8) in
+    let s9 := set_commit s8 idx in
+    let s10 := if v_latestIdx s9 <=? idx
+               then set_committed s9 (v_latest s9) (v_latestIdx s9) else s9 in
+    match process_logs s10 idx with
+    | None => Panic s10 tr8
+    | Some (s11, tra) => Done s11 ok_resp (tr8 ++ tra) fs8
+    end
+  else Done s8 ok_resp tr8 fs8.
+
 (* everything after the term check / term bump / setLeader: s0 is the state at entry (for the
    LastLog field of the response), s2 the state after the bump, rt the response term *)
 Definition ae_body (P : params) (s0 s2 : nstate) (rt : N) (tr1 : list ev) (fs1 : list bool) (a : areq)
   : outcome aresp :=
-      let fail_resp := fun noretry => mkAResp rt (last_index s0) false noretry false in
-      (* previous-entry check *)
-      let prev_ok :=
-        if 0 <? aq_prevIdx a then
-          let '(lastIdx, lastTerm) := last_entry s2 in
-          if aq_prevIdx a =? lastIdx then Some (aq_prevTerm a =? lastTerm)
-          else match d_log s2 !! aq_prevIdx a with
-               | None => None
-               | Some pe => Some (aq_prevTerm a =? e_term pe)
-               end
-        else Some true in
-      match prev_ok with
-      | None => Done s2 (fail_resp true) tr1 fs1
-      | Some false => Done s2 (fail_resp true) tr1 fs1
-      | Some true =>
-        (* new entries *)
-        let after_entries : option (nstate * list ev * list bool) + aresp * nstate * list ev * list bool :=
-          match aq_entries a with
-          | [] => inl (Some (s2, tr1, fs1))
-          | _ =>
-            let lastLogIdx := v_lastLogIdx s2 in
-            let store_new := fun (s3 : nstate) (tr3 : list ev) (fs3 : list bool) (news : list entry) =>
-              let lastNew := e_idx (last_of news) in
-              let '(s4, trs) := do_stage P s3 (N.min (aq_commit a) lastNew) in
-              let '(s5, ok, fs5) := do_store P s4 fs3 news in
-              if negb ok then inr (fail_resp false, s5, tr3 ++ trs ++ [EStore news false], fs5)
-              else let s6 := fold_left (process_config_entry P) news s5 in
-                   let s7 := set_lastlog s6 (e_idx (last_of news)) (e_term (last_of news)) in
-                   inl (Some (s7, tr3 ++ trs ++ [EStore news true], fs5)) in
-            match scan_entries (d_log s2) lastLogIdx (aq_entries a) with
-            | ScanNone => inl (Some (s2, tr1, fs1))
-            | ScanMissing => inr (fail_resp false, s2, tr1, fs1)
-            | ScanNew news => store_new s2 tr1 fs1 news
-            | ScanConflict ci news =>
-              let '(s3, ok, fs3) := do_delete s2 fs1 ci lastLogIdx in
-              if negb ok then inr (fail_resp false, s3, tr1 ++ [EDelete ci lastLogIdx false], fs3)
-              else let s3' := if ci <=? v_latestIdx s3
-                              then set_latest s3 (v_committed s3) (v_committedIdx s3) else s3 in
-                   store_new s3' (tr1 ++ [EDelete ci lastLogIdx true]) fs3 news
-            end
-          end in
-        match after_entries with
-        | inr (resp, s', tr', fs') => Done s' resp tr' fs'
-        | inl None => Panic s2 tr1
-        | inl (Some (s8, tr8, fs8)) =>
-          (* commit index *)
-          if (0 <? aq_commit a) && (v_commit s8 <? aq_commit a) then
-            let idx := N.min (aq_commit a) (last_index s8) in
-            let s9 := set_commit s8 idx in
-            let s10 := if v_latestIdx s9 <=? idx
-                       then set_committed s9 (v_latest s9) (v_latestIdx s9) else s9 in
-            match process_logs s10 idx with
-            | None => Panic s10 tr8
-            | Some (s11, tra) => Done s11 (mkAResp rt (last_index s0) true false false) (tr8 ++ tra) fs8
-            end
-          else Done s8 (mkAResp rt (last_index s0) true false false) tr8 fs8
-        end
-      end.
+  let fail_resp := fun noretry => mkAResp rt (last_index s0) false noretry false in
+  match prev_check s2 a with
+  | None => Done s2 (fail_resp true) tr1 fs1
+  | Some false => Done s2 (fail_resp true) tr1 fs1
+  | Some true =>
+    match ae_entries P (fail_resp false) s2 tr1 fs1 a with
+    | inr (resp, s', tr', fs') => Done s' resp tr' fs'
+    | inl None => Panic s2 tr1
+    | inl (Some (s8, tr8, fs8)) => ae_commit (mkAResp rt (last_index s0) true false false) s8 tr8 fs8 a
+    end
+  end.
 
 Definition append_entries (P : params) (s : nstate) (fs : list bool) (a : areq) : outcome aresp :=
   let r0 := mkAResp (v_term s) (last_index s) false false false in
@@ -529,36 +539,44 @@ Fixpoint scan_configs (P : params) (s : nstate) (from : N) (n : nat) : option ns
     end
   end.
 
-Definition recover (P : params) (img : nstate) : recovered :=
-  let restoreCommitted := p_rc P in
-  let s0 := fresh_volatile img in
-  let s1 := set_vol_term s0 (d_term s0) in
+(* last log entry of the store (NewRaft: LastIndex + GetLog) *)
+Definition rec_last (s1 : nstate) : option entry :=
   let li := log_last (d_log s1) in
-  match (if 0 <? li then d_log s1 !! li else Some (mkE 0 0 0 0)) with
+  if 0 <? li then d_log s1 !! li else Some (mkE 0 0 0 0).
+
+(* restoreSnapshot: first usable snapshot of the listing; None = "failed to load any existing snapshots" *)
+Definition rec_snapshot (s2 : nstate) : option (nstate * list ev) :=
+  let listing := list_snaps (d_snaps s2) in
+  match find sn_ok listing with
+  | Some sn =>
+    Some (set_latest (set_committed (set_lastsnap (set_applied s2 (sn_idx sn) (sn_data sn))
+                                                   (sn_idx sn) (sn_term sn))
+                                     (sn_cfg sn) (sn_cfgidx sn))
+                     (sn_cfg sn) (sn_cfgidx sn), [ERestore (sn_data sn)])
+  | None => match listing with [] => Some (s2, []) | _ => None end
+  end.
+
+(* restoreFromCommittedLogs: None = ErrIncompatibleLogStore, Some None = panic in processLogs *)
+Definition rec_committed (P : params) (s3 : nstate) : option (option (nstate * list ev)) :=
+  if p_rc P then
+    if negb (p_track P) then None
+    else let ci := N.min (d_pcommit s3) (log_last (d_log s3)) in
+         match process_logs (set_commit s3 ci) ci with
+         | None => Some None
+         | Some (s4, tr4) => Some (Some (s4, tr4))
+         end
+  else Some (Some (s3, [])).
+
+Definition recover (P : params) (img : nstate) : recovered :=
+  let s1 := set_vol_term (fresh_volatile img) (d_term img) in
+  match rec_last s1 with
   | None => RecErr
   | Some le =>
     let s2 := set_lastlog s1 (e_idx le) (e_term le) in
-    (* restoreSnapshot: first usable of the listing *)
-    let listing := list_snaps (d_snaps s2) in
-    match (match find sn_ok listing with
-           | Some sn =>
-             Some (set_latest (set_committed (set_lastsnap (set_applied s2 (sn_idx sn) (sn_data sn))
-                                                            (sn_idx sn) (sn_term sn))
-                                              (sn_cfg sn) (sn_cfgidx sn))
-                              (sn_cfg sn) (sn_cfgidx sn), [ERestore (sn_data sn)])
-           | None => match listing with [] => Some (s2, []) | _ => None end
-           end) with
+    match rec_snapshot s2 with
     | None => RecErr
     | Some (s3, tr3) =>
-      (* restoreFromCommittedLogs *)
-      match (if restoreCommitted then
-               if negb (p_track P) then None
-               else let ci := N.min (d_pcommit s3) (log_last (d_log s3)) in
-                    match process_logs (set_commit s3 ci) ci with
-                    | None => Some None
-                    | Some (s4, tr4) => Some (Some (s4, tr4))
-                    end
-             else Some (Some (s3, []))) with
+      match rec_committed P s3 with
       | None => RecErr
       | Some None => RecPanic
       | Some (Some (s4, tr4)) =>
